@@ -35,6 +35,10 @@ pub struct Stmt {
     /// OutcomeOnly: the statement is wrapped in try/catch, so an error must not escape it
     #[serde(default)]
     pub no_raise: bool,
+    /// OutcomeOnly: all arguments are small and finite, so running out of the step budget is
+    /// reported (bounded liveness: "never hangs on terminating input")
+    #[serde(default)]
+    pub must_terminate: bool,
 }
 
 #[derive(Clone, Debug, Serialize, Deserialize, PartialEq, Default)]
@@ -169,6 +173,38 @@ pub struct RunResult {
     pub stats: RunStats,
     /// event log: one line per statement (source, outcome, state hash); used by the determinism proof
     pub log: Vec<String>,
+}
+
+// progress published for the hang watchdog: worker id -> (run index + 1, statement index, start ms)
+pub const MAX_WORKERS: usize = 64;
+pub static PROGRESS_RUN: [std::sync::atomic::AtomicU64; MAX_WORKERS] =
+    [const { std::sync::atomic::AtomicU64::new(0) }; MAX_WORKERS];
+pub static PROGRESS_STMT: [std::sync::atomic::AtomicU64; MAX_WORKERS] =
+    [const { std::sync::atomic::AtomicU64::new(0) }; MAX_WORKERS];
+pub static PROGRESS_SINCE_MS: [std::sync::atomic::AtomicU64; MAX_WORKERS] =
+    [const { std::sync::atomic::AtomicU64::new(0) }; MAX_WORKERS];
+
+pub fn now_ms() -> u64 {
+    static START: std::sync::OnceLock<std::time::Instant> = std::sync::OnceLock::new();
+    START.get_or_init(std::time::Instant::now).elapsed().as_millis() as u64 + 1
+}
+
+thread_local! {
+    static WORKER_ID: std::cell::Cell<usize> = const { std::cell::Cell::new(usize::MAX) };
+}
+pub fn set_worker(id: usize, run_plus_one: u64) {
+    WORKER_ID.with(|w| w.set(id));
+    if id < MAX_WORKERS {
+        PROGRESS_RUN[id].store(run_plus_one, std::sync::atomic::Ordering::Relaxed);
+        PROGRESS_SINCE_MS[id].store(now_ms(), std::sync::atomic::Ordering::Relaxed);
+    }
+}
+fn publish_stmt(idx: usize) {
+    let id = WORKER_ID.with(|w| w.get());
+    if id < MAX_WORKERS {
+        PROGRESS_STMT[id].store(idx as u64, std::sync::atomic::Ordering::Relaxed);
+        PROGRESS_SINCE_MS[id].store(now_ms(), std::sync::atomic::Ordering::Relaxed);
+    }
 }
 
 thread_local! {
@@ -437,6 +473,7 @@ fn execute_inner(
         if trace_enabled() {
             eprintln!("TRACE {}", src);
         }
+        publish_stmt(idx);
         verif_hooks::set_fuel(Some(script.cfg.fuel));
         verif_hooks::set_fault_after(cancel);
         let env = sess.env.clone();
@@ -472,7 +509,17 @@ fn execute_inner(
             stats.fuel_out += 1;
             log.push(format!("{} => FUEL", src));
             if st.mode == Mode::OutcomeOnly && st.write_set.is_empty() {
-                // "did not terminate within budget": never a violation by itself; the session goes on
+                if st.must_terminate {
+                    nonfatal.push(Violation {
+                        kind: ViolationKind::Invariant("termination".into()),
+                        stmt_index: idx,
+                        source: src.clone(),
+                        expected: format!("terminates within {} interpreter steps (small finite arguments)", script.cfg.fuel),
+                        observed: "step budget exhausted".into(),
+                        detail: String::new(),
+                    });
+                }
+                // otherwise "did not terminate within budget" is not a violation by itself
                 continue;
             }
             return RunEnd::Inconclusive("implementation ran out of fuel".into());
@@ -657,4 +704,33 @@ fn compare_state(sess: &mut Session, idx: usize, src: &str) -> Result<u64, RunEn
     }
     fnv(&mut h, &format!("{}", w.accepted.len()));
     Ok(h)
+}
+
+/// Run a script in its own thread and give up after `secs` of wall clock on one statement. None =
+/// hang (the thread is abandoned; callers exit the process soon afterwards). Returns the statement.
+pub fn execute_watched(script: &Script, secs: u64) -> Result<RunResult, usize> {
+    let (tx, rx) = std::sync::mpsc::channel();
+    let sc = script.clone();
+    let slot = MAX_WORKERS - 1;
+    std::thread::Builder::new()
+        .stack_size(256 << 20)
+        .spawn(move || {
+            install_panic_hook();
+            set_worker(slot, 1);
+            let r = execute(&sc);
+            let _ = tx.send(r);
+        })
+        .unwrap();
+    loop {
+        match rx.recv_timeout(std::time::Duration::from_millis(200)) {
+            Ok(r) => return Ok(r),
+            Err(std::sync::mpsc::RecvTimeoutError::Timeout) => {
+                let since = PROGRESS_SINCE_MS[slot].load(std::sync::atomic::Ordering::Relaxed);
+                if since != 0 && now_ms().saturating_sub(since) > secs * 1000 {
+                    return Err(PROGRESS_STMT[slot].load(std::sync::atomic::Ordering::Relaxed) as usize);
+                }
+            }
+            Err(_) => return Err(usize::MAX),
+        }
+    }
 }
